@@ -271,15 +271,18 @@ func runC15(r *Report) {
 				return
 			}
 			n++
-			readyG := false
-			for _, gd := range guardsOf(g.Block()) {
-				bo, ok := gd.Cond.(*ssa.BinOp)
-				if ok && bo.Op == token.EQL && gd.Pol {
-					if k, okk := constInt(bo.Y); okk && k == 1 { // tracker.Ready
-						readyG = true
-					}
+			// a dominating `state == Ready`, possibly as the outcome of a helper that picks the tracker
+			// (tr := readyTracker(tier); if tr == nil { continue })
+			readyG := p.factHolds(g, func(gd Guard) bool {
+				op, x, y, ok := cmpFact(gd)
+				if !ok || op != token.EQL {
+					return false
 				}
-			}
+				if k, okk := constInt(y); okk && k == 1 && !isNilConst(x) { // tracker.Ready
+					return typeShort(x.Type()) == "tracker.State" || isInteger(x.Type())
+				}
+				return false
+			}, 0)
 			r.Check(readyG, "R2", "trackerAnnounce/only-ready", g.Pos(), "an announce is started only for a tracker in state Ready", "an announce goroutine is started for a tracker whose state is not known to be Ready")
 			// followed by return: no path from the go statement back to another go statement
 			again := pathHasBefore(g, func(i ssa.Instruction) bool { _, isr := i.(*ssa.Return); return isr }, func(i ssa.Instruction) bool { _, isg := i.(*ssa.Go); return isg })
